@@ -3,10 +3,18 @@ From V Require Import C19.Glue C19.ProofsBase C19.ProofsNames C19.ProofsViews C1
 From Coq Require Import Lia ZifyBool ZifyNat ZifyN.
 
 (* ---------- single checks *)
-Lemma model_meets_spec_name : forall s, spec_name s (validate_name s) = [].
-Proof. intros s. unfold spec_name. rewrite validate_name_spec. now destruct (spec_name_valid s). Qed.
-Lemma model_meets_spec_unit : forall s, spec_unit s (validate_unit s) = [].
-Proof. intros s. unfold spec_unit. rewrite validate_unit_spec. now destruct (spec_unit_valid s). Qed.
+Lemma model_meets_spec_name : forall s, spec_name s (validate_name s) (validate_name_nr s) = [].
+Proof.
+  intros s. unfold spec_name. rewrite validate_name_spec, Bool.eqb_reflx. cbn [app].
+  destruct s as [|c t]; [reflexivity|]. rewrite validate_name_nr_spec by discriminate. now rewrite Bool.eqb_reflx.
+Qed.
+Lemma model_meets_spec_unit : forall s, has_nul s = false -> spec_unit s (validate_unit s) (validate_unit_nr s) = [].
+Proof.
+  intros s H. unfold spec_unit. rewrite validate_unit_spec, validate_unit_nr_spec by assumption. now rewrite Bool.eqb_reflx.
+Qed.
+Lemma unit_variants_refuted : spec_unit [x6d; x00] (validate_unit [x6d; x00]) (validate_unit_nr [x6d; x00])
+                              = fail "variants_agree:handwritten_unit_embedded_nul".
+Proof. vm_compute. reflexivity. Qed.
 Lemma model_meets_spec_pred : forall k raw s b, pred_model k raw s = Some b -> spec_pred k raw s b = [].
 Proof.
   intros k raw s b. unfold pred_model, spec_pred. destruct k.
@@ -132,15 +140,16 @@ Proof. vm_compute. reflexivity. Qed.
 (* ---------- the whole extracted checker on the model's own output *)
 Definition case_good (c : case) : Prop :=
   match c with
-  | CNameC _ | CUnitC _ | CTr _ _ _ => True
+  | CNameC _ | CTr _ _ _ => True
+  | CUnitC s => has_nul s = false
   | CPred k raw s => pred_model k raw s <> None
   | CMet r d vs keys ops => met_good r d vs keys ops
   | CLg r d ops => Forall (good_req r d) ops
   end.
 Definition model_obs (c : case) : list tok :=
   match c with
-  | CNameC s => [tag "N"; tbool (validate_name s)]
-  | CUnitC s => [tag "U"; tbool (validate_unit s)]
+  | CNameC s => [tag "N"; tbool (validate_name s); print_obool (validate_name_nr s)]
+  | CUnitC s => [tag "U"; tbool (validate_unit s); tbool (validate_unit_nr s)]
   | CPred k raw s => match pred_model k raw s with Some b => [tag "P"; tbool b] | None => bad_case end
   | CMet r d vs keys ops => print_met (run_met r d vs keys ops)
   | CTr r d ops => print_tr (run_tr r d ops)
@@ -148,8 +157,8 @@ Definition model_obs (c : case) : list tok :=
   end.
 Definition spec_on (c : case) : list tok :=
   match c with
-  | CNameC s => spec_name s (validate_name s)
-  | CUnitC s => spec_unit s (validate_unit s)
+  | CNameC s => spec_name s (validate_name s) (validate_name_nr s)
+  | CUnitC s => spec_unit s (validate_unit s) (validate_unit_nr s)
   | CPred k raw s => match pred_model k raw s with Some b => spec_pred k raw s b | None => [] end
   | CMet r d vs keys ops => spec_met r d vs keys ops (fst (run_met r d vs keys ops)) (snd (run_met r d vs keys ops))
   | CTr r d ops => spec_tr r d ops (ts_out (run_tr r d ops)) (ts_spans (run_tr r d ops))
@@ -160,7 +169,7 @@ Lemma model_meets_spec_lemma : forall c, case_good c -> spec_on c = [].
 Proof.
   intros [s | s | k raw s | r d vs keys ops | r d ops | r d ops] H; cbn [spec_on].
   - apply model_meets_spec_name.
-  - apply model_meets_spec_unit.
+  - now apply model_meets_spec_unit.
   - destruct (pred_model k raw s) eqn:E; [now apply model_meets_spec_pred | reflexivity].
   - now apply model_meets_spec_met.
   - apply model_meets_spec_tr.
